@@ -2,8 +2,8 @@
 """tools/keepseed.py <PID> <k> <caught-by comma list or 'MISSED'> <needs text> — stores a confirmed seeded change under /verif/seeded/<PID>-<k>/."""
 import json, os, shutil, sys
 pid, k, caught, needs = sys.argv[1], sys.argv[2], sys.argv[3], sys.argv[4]
-src = "/tmp/seed/%s" % pid
-dst = "/verif/seeded/%s-%s" % (pid, k)
+src = os.environ.get("SEEDSRC", "/tmp/seed") + "/%s" % pid
+dst = "/verif/seeded/%s-%s%s" % (pid, os.environ.get("SEEDTAG", ""), k)
 os.makedirs(dst, exist_ok=True)
 shutil.copy(os.path.join(src, "patch_%s.diff" % k), os.path.join(dst, "patch.diff"))
 shutil.copy(os.path.join(src, "demo_%s.py" % k), os.path.join(dst, "demo.py"))
